@@ -128,12 +128,13 @@ func init() {
 
 func init() {
 	shape := "invoice skeletons as in C03 (1..2 lines, optional discounts/charges/advances), all prices and amounts symbolic; EUR"
-	c17 := billCfg("C17", `^H_C17_Order`, []string{shape, "swap of the two lines (rich lines; lines differing in percentage and surcharge); Invert twice (one rich line, or two lines with discounts; fixed amounts and rates non-zero); both rounding rules"}, []string{shape + "; quantities from {3, -2, 7} on the first line; the larger alternatives of the skeleton (fixed line and document charges, a percentage advance alone); fully symbolic quantities and a second line with the full variety were tried, did not complete within the budget and are not claimed", "Invert also in JPY; removal of included VAT on one line (EUR)"},
+	c17 := billCfg("C17", `^H_C17_Order`, []string{shape, "swap of the two lines (rich lines; lines differing in percentage and surcharge); Invert twice (one rich line, or two lines with discounts; fixed amounts and rates non-zero); both rounding rules", "the shape of known finding C17-remove-included-fixed-document-row (one line, four-decimal price below 1.0000, fixed document discount of -1.00..-0.01, VAT included, rule precise) so that it is exercised in the quick tier"}, []string{shape + "; quantities from {3, -2, 7} on the first line; the larger alternatives of the skeleton (fixed line and document charges, a percentage advance alone); fully symbolic quantities and a second line with the full variety were tried, did not complete within the budget and are not claimed", "Invert also in JPY; removal of included VAT on one line (EUR)"},
 		[]string{"permutations of more than two rows; discounts/charges with explicit bases and explicit-quantity rate charges; quick tier: line and document discounts only (charges, advances in thorough)"})
 	c17.Opaque = map[string]string{"(num.Amount).String": "<amount>"}
 	c17.Stubs = append(c17.Stubs, "num.Amount.String on a symbolic amount (only used to build the mismatch message of Invert): placeholder text", "cbc.NormalizeCode regexps: native regexp on concrete strings")
 	c17.Stages = append(c17.Stages, stage{Name: "negation", Harness: `^H_C17_Invert`, Subst: numSummaries, Needs: []string{"L0"}, BudgetS: 300})
-	c17.Stages = append(c17.Stages, stage{Name: "included-tax", Harness: `^H_C17_RemoveIncluded`, Subst: numSummaries, Needs: []string{"L0"}, ThoroughOnly: true, BudgetS: 100})
+	c17.Stages = append(c17.Stages, stage{Name: "included-tax-known-shape", Harness: `^H_C17_RemoveIncludedFixedRow$`, Subst: numSummaries, Needs: []string{"L0"}, BudgetS: 60})
+	c17.Stages = append(c17.Stages, stage{Name: "included-tax", Harness: `^H_C17_RemoveIncluded$`, Subst: numSummaries, Needs: []string{"L0"}, ThoroughOnly: true, BudgetS: 100})
 	reg(c17)
 }
 
